@@ -157,9 +157,57 @@ func c09Flood(shape string, n int, bound int) *world.Scenario {
 	return sc
 }
 
+// c09FloodSlow: the never-pausing sender also reads slowly: a flush meets a full socket, a backlog is parked and write
+// interest is armed. From then on every readiness event of that client carries "readable" (it never stops sending); when
+// the socket becomes writable again the event carries "writable" too, and the proxy must use it. Logical promptness: a
+// readiness event that says "writable" while a backlog is waiting is not left unused three times in a row.
+func c09FloodSlow(shape string, n int, bound int) *world.Scenario {
+	sc := c09Flood(shape, n, bound)
+	sc.Clients[0].Slow = true
+	sc.WriteOracle = true
+	sc.Family = "flood-slow-reader"
+	sc.Name = fmt.Sprintf("C09/flood-slow-reader/%s/%dreqs/d%d", shape, n, bound)
+	inner := sc.Quiescent
+	ignored := 0
+	boot := sc.AfterBoot
+	sc.AfterBoot = func(w *world.World) { boot(w); ignored = 0 }
+	sc.Quiescent = func(w *world.World) *world.Violation {
+		if v := inner(w); v != nil {
+			return v
+		}
+		if len(w.Clients) == 0 || w.Clients[0].Sock == nil || !w.Clients[0].Accepted || w.Clients[0].Sock.Closed {
+			return nil
+		}
+		fd := w.Clients[0].Sock.Fd
+		if w.LastFd != fd {
+			return nil
+		}
+		const out = 0x4 // EPOLLOUT
+		if w.LastMask&out != 0 && vsys.ReadyMask(fd)&out != 0 {
+			ignored++
+		} else {
+			ignored = 0
+		}
+		w.LastFd = -1
+		if ignored >= 3 {
+			return &world.Violation{Sig: "withheld-from-writable-client", Msg: fmt.Sprintf(
+				"three readiness events in a row told the proxy that the client's socket is writable while a reply backlog is waiting for it; the proxy wrote nothing (the client keeps sending, so it may never do; client has %d replies)", w.Clients[0].NReplies)}
+		}
+		return nil
+	}
+	return sc
+}
+
 func c09Scenarios(tier string) []*world.Scenario {
 	var out []*world.Scenario
 	alpha := []string{"FA", "FB", "M2"}
+	for _, shape := range []string{"get", "mget"} {
+		b := 2
+		if tier == "thorough" {
+			b = 3
+		}
+		out = append(out, c09FloodSlow(shape, 14, b))
+	}
 	// the open-loop client also reads slowly: flushes meet EAGAIN / short writes and must be resumed when it drains
 	for _, p := range [][]string{{"FA", "FB", "FA"}, {"FA", "FA", "FA"}, {"M2", "FA"}} {
 		b := 3
@@ -446,6 +494,40 @@ func c10Scenarios(tier string) []*world.Scenario {
 		}
 		out = append(out, sc)
 	}
+	// the same at production buffer sizes (64 KiB ring part that starts at 1 KiB and grows): values of 300-900 bytes, so
+	// that partial drains leave the read cursor inside the ring, later requests wrap around its end and the ring then grows
+	for vi, vals := range [][]int{{900, 600, 600, 700}, {500, 500, 900, 900}, {1000, 30, 1000, 1000}} {
+		var reqs []Req
+		var rds []rd
+		ks := []string{a0, a1, a2, a0}
+		for i, n := range vals {
+			v := patterned(fmt.Sprintf("v%d", i), n)
+			reqs = append(reqs, set(ks[i], v))
+			rds = append(rds, rd{"set", []string{ks[i]}, v})
+		}
+		last := patterned("v3", vals[3])
+		reqs = append(reqs, get(a0, last))
+		rds = append(rds, rd{"get", []string{a0}, ""})
+		b := 3
+		if tier == "thorough" {
+			b = 4
+		}
+		sc := c10Scenario(fmt.Sprintf("slow-backend-production-size/values%d", vi), [][]Req{reqs}, [][]rd{rds}, b)
+		sc.SlowBackends, sc.WriteOracle, sc.WriteCap, sc.ReadCap = true, true, 65536, 65536
+		sc.Family = "slow-backend"
+		base := sc.Check
+		sc.Check = func(w *world.World) []world.Violation {
+			if vs := BackendsWellFormed(w); len(vs) > 0 {
+				vs[0].Sig = "per-node-order-violated"
+				if len(vs[0].Msg) > 700 {
+					vs[0].Msg = vs[0].Msg[:700] + "..."
+				}
+				return vs
+			}
+			return base(w)
+		}
+		out = append(out, sc)
+	}
 	if tier == "thorough" {
 		out = append(out, c10Scenario("3x set-get",
 			[][]Req{{set(a0, "x"), get(a0, "x")}, {set(a1, "y"), get(a1, "y")}, {set(a2, "z"), get(a2, "z")}},
@@ -539,6 +621,32 @@ func c07Scenarios(tier string) []*world.Scenario {
 		}
 		sc.Horizon = 200
 		out = append(out, sc)
+	}
+	// two split requests pipelined on one connection: their fragments' replies arrive in every order, in particular the
+	// LATER request completes first and its merged reply waits behind the unfinished earlier one while that one is merged
+	{
+		a3, b2, c2 := keyWith("k", 0, 2), keyWith("k", 1, 1), keyWith("k", 2, 1)
+		// the first request needs node C, the second does not: whenever C answers last the second one completes first
+		pairs := map[string][2]Req{
+			"mget,mget": {MGetReq(a, c), MGetReq(b2, a3, b)},
+			"mget,del":  {MGetReq(a, c), DelReq(a3, b2)},
+			"del,mget":  {DelReq(a, c), MGetReq(b2, a3)},
+			"mset,mget": {MSetReq(a, "1", c, "2"), MGetReq(a3, b2)},
+			"mget,mset": {MGetReq(c, a), MSetReq(a3, "x", b2, "y")},
+			"del,del":   {DelReq(c2, a), DelReq(a3, b2)},
+		}
+		for _, n := range []string{"mget,mget", "mget,del", "del,mget", "mset,mget", "mget,mset", "del,del"} {
+			bd := 4
+			if tier == "thorough" {
+				bd = -1
+			}
+			sc := c07Scenario("pair/"+n, pairs[n][0], nil, bd)
+			sc.Clients = []world.ClientSpec{ClientOf([]Req{pairs[n][0], pairs[n][1], PingReq()}, true)}
+			sc.Clients[0].Chunks = []world.Chunk{{Data: append(append([]byte{}, pairs[n][0].Bytes...), pairs[n][1].Bytes...)}, {Data: PingReq().Bytes, WaitReplies: 2}}
+			sc.OrderSites = nil
+			sc.Family = "pipelined-pair"
+			out = append(out, sc)
+		}
 	}
 	// two fragment replies of one node arrive in one read
 	for _, n := range []string{"mget-samenode-2", "del-samenode", "mset-samenode-crlf"} {
